@@ -10,6 +10,7 @@ use rand_chacha::ChaCha8Rng;
 use std::io::Write;
 
 mod auth;
+mod c01;
 mod c02;
 mod c06;
 mod c07;
@@ -101,6 +102,7 @@ fn main() {
     match prop.as_str() {
         "C19" => c19::run(&mut ctx),
         "C20" => c20::run(&mut ctx),
+        "C01" => c01::run(&mut ctx),
         "C02" => c02::run(&mut ctx),
         "C03" => auth::run_c03(&mut ctx),
         "C04" => auth::run_c04(&mut ctx),
